@@ -383,7 +383,10 @@ def coq_failing_indices(name, imports, checker, cases, timeout=900, shard=400, p
     jobs = []
     for s in range(0, len(cases), shard):
         part = cases[s:s + shard]
-        body = 'Definition cases := [\n' + ';\n'.join(part) + '\n].\n'
+        # the element type is taken from the checker, so that a shard whose literals do not determine it
+        # (only `None`s / empty lists) still elaborates
+        body = 'Definition dom_of_ {A B : Type} (f : A -> B) : Type := A.\n'
+        body += 'Definition cases : list (dom_of_ %s) := [\n' % checker + ';\n'.join(part) + '\n].\n'
         body += ('Definition bad := map fst (filter (fun ic => negb (%s (snd ic))) '
                  '(combine (seq 0 (length cases)) cases)).\n' % checker)
         body += 'Eval vm_compute in bad.\n'
